@@ -230,7 +230,18 @@ def _missing_consts(name, reason):
     if not names:
         return []
     try:
-        tpl = open(os.path.join(VERIF, 'contracts', name, 'unit.vt'), encoding='utf-8').read()
+        udir = os.path.join(VERIF, 'contracts', name)
+        tpl = open(os.path.join(udir, 'unit.vt'), encoding='utf-8').read()
+        # the extraction directives may sit in included files
+        seen, todo = set(), re.findall(r'(?m)^@include\s+(\S+)', tpl)
+        while todo:
+            inc = os.path.normpath(os.path.join(udir, todo.pop()))
+            if inc in seen or not os.path.isfile(inc):
+                continue
+            seen.add(inc)
+            t = open(inc, encoding='utf-8').read()
+            tpl += '\n' + t
+            todo += [os.path.join(os.path.relpath(os.path.dirname(inc), udir), x) for x in re.findall(r'(?m)^@include\s+(\S+)', t)]
     except OSError:
         return []
     files = []
@@ -506,6 +517,13 @@ def _digest_canary(r, cans, ctexts, layers, clemmas):
                     failing.add(host['qual'])
                 elif host and host['qual_short'] in inlayer:
                     failing.add(host['qual_short'])
+                elif host:
+                    # a trait-impl method whose body the template places in an inherent impl (stand-alone @fn form): the layer
+                    # id says `<T as Tr>::f`, the generated file says `T::f` - same type, same method name, unique in the layer
+                    ty, _, nm = host['qual_short'].rpartition('::')
+                    cand = [i for i in inlayer if i.rpartition('::')[2] == nm and re.match(r'<\s*%s\b' % re.escape(ty), i)]
+                    if len(cand) == 1:
+                        failing.add(cand[0])
     alive = sorted(x for x in expected if x not in failing)
     r.canary = {'expected_to_fail': len(expected), 'failed_as_expected': len(expected) - len(alive), 'vacuous': alive,
                 'layers': len(layers), 'wall_s': round(wall, 2)}
